@@ -1,16 +1,21 @@
 """C07 — row-stream codec: round trips over the type universe; every single-bit flip and every
 truncation point of small streams (exhaustive per stream); random bursts on larger ones."""
 PID = "C07"
-CASE_LIMIT = {"C07": 15}   # seconds: these cases are function calls, not sessions
+CASE_LIMIT = {"C07": 15, "C07crc": 15}
+SUBS = ["C07", "C07crc"]   # seconds: these cases are function calls, not sessions
 PARALLEL = {"C07": 8}
+EXTRA_TARGETS = ("BS.Properties.C07c",)
 RULE = ("round trips: random streams of 0..6 batches (0..9 rows, incl. empty batches) over 1-3 columns of the kind universe "
         "(built-in ints/floats/strings/bytes/bools, gob structs with some or all fields zero, pointers, slices, arrays, maps, a "
         "custom-codec column; a third of the composite values are zero values), random "
         "destination sizes 1..12; damage: for small streams every single-bit flip and every truncation point "
         "(one case per stream enumerates all positions: exhaustive for that stream), random single flips, truncations "
-        "and 2..6 byte bursts on larger streams; non-trivial = at least two batches or damage")
+        "and 2..6 byte bursts on larger streams; C07crc: random byte strings of 0..300 bytes, their CRC-32 as the codec computes "
+        "it (NewIEEE, Reset, piecewise Write, Sum32) against the Lean model BS.Crc.crc32, and a copy damaged in a window of "
+        "1..4 bytes (every single-bit flip for short strings); non-trivial = at least two batches or damage")
 TRUST = ["encoding/gob: Decode(Encode(v)) = v and a decoder consumes exactly the bytes its encoder wrote",
-         "hash/crc32 (the burst-detection property of CRC-32 is not proved here; every single-bit flip is enumerated instead)"]
+         "hash/crc32 is compared with the Lean model BS.Crc.crc32 on every C07crc case; the model's burst detection (at most 32 "
+         "consecutive bits) is proved (BS.Crc.checksum_detects_*); longer damage escapes a CRC with probability 2^-32 (not proved)"]
 ASSUMPTIONS = ["gob cannot encode nil pointer elements: pointer columns carry non-nil values",
                "damage that changes gob's own framing is covered by enumeration, not by a theorem (BS.Codec abstracts a batch "
                "as intact or damaged)"]
@@ -33,7 +38,37 @@ def gen_stream(r, maxb, maxrows):
     return "K %s ; %s ; DEST %s" % (",".join(kinds), " ; ".join(bs) if bs else "B", dest)
 
 
-def gen(r, tier):
+def gen_crc(r, tier):
+    n = 600 if tier == "quick" else 20000
+    for i in range(n):
+        ln = r.choice([0, 1, 2, 3, 4, 5, 8, 9, 16, 17, r.rng(0, 40), r.rng(0, 300)])
+        data = bytes(r.below(256) for _ in range(ln))
+        if ln == 0 or i % 5 == 0:
+            yield "CRC %s" % (data.hex() or "-")
+            continue
+        w = r.rng(1, min(4, ln))
+        pos = r.rng(0, ln - w)
+        if r.chance(1, 2):
+            # a single flipped bit
+            new = bytearray(data[pos:pos + 1])
+            new[0] ^= 1 << r.below(8)
+        else:
+            new = bytearray(r.below(256) for _ in range(w))
+            if r.chance(1, 3):
+                new = bytearray(data[pos:pos + w])   # sometimes no damage at all
+        yield "CRC %s ; DMG %d %s" % (data.hex(), pos, bytes(new).hex())
+    # every single-bit flip of a few short strings
+    for ln in (1, 2, 5, 9):
+        data = bytes(r.below(256) for _ in range(ln))
+        for bitpos in range(8 * ln):
+            new = bytes([data[bitpos // 8] ^ (1 << (bitpos % 8))])
+            yield "CRC %s ; DMG %d %s" % (data.hex(), bitpos // 8, new.hex())
+
+
+def gen(r, tier, sub):
+    if sub == "C07crc":
+        yield from gen_crc(r, tier)
+        return
     n = 1500 if tier == "quick" else 30000
     for _ in range(n):
         yield gen_stream(r, 6, 9) + " ; DMG none"
@@ -53,6 +88,8 @@ def gen(r, tier):
 
 
 def nontrivial(case, obs):
+    if case.startswith("CRC"):
+        return "DMG" in case
     return case.count(" B") >= 2 or "DMG none" not in case
 
 
@@ -61,3 +98,36 @@ def shrink_candidates(case):
     for i, p in enumerate(parts):
         if p.startswith("B") and len(parts) > 4:
             yield " ; ".join(parts[:i] + parts[i + 1:])
+
+
+def t2(chk, wc, tier, seed):
+    """where and how the codec uses the checksum, regenerated from sliceio/codec.go: both ends use the IEEE polynomial, the
+    encoder resets the hash before a batch and writes its sum after it, the decoder resets before a batch, compares the sum
+    it computed with the transmitted one and reports a mismatch as an Integrity error."""
+    import re
+    import vlib
+    src = open(wc.repo + "/sliceio/codec.go").read()
+    def body(sig):
+        i = src.index(sig)
+        j = src.index("\n}\n", i)
+        return src[i:j]
+    enc = body("func (e *Encoder) Write(")
+    rd = body("func (d *decodingReader) Read(")
+    db = body("func (d *decodingReader) decodeBatch(")
+    facts = {
+        "newIEEE": len(re.findall(r"crc32\.NewIEEE\(\)", src)),
+        "otherPoly": len(re.findall(r"crc32\.(MakeTable|Castagnoli|Koopman|New\()", src)),
+        "encResetFirst": int(enc.split("\n")[1].strip() == "e.crc.Reset()"),
+        "encSumLast": int(enc.rstrip().split("\n")[-1].strip() == "return e.enc.Encode(e.crc.Sum32())"),
+        "encTee": int("io.MultiWriter(w, crc)" in src),
+        "decTee": int("io.TeeReader(r, io.MultiWriter(crc, &d.nread))" in src),
+        "decResetBeforeHeader": int(rd.find("d.crc.Reset()") != -1 and rd.find("d.crc.Reset()") < rd.find("d.dec.Decode(&n)")),
+        "decSumBeforeStored": int(db.find("sum := d.crc.Sum32()") != -1 and db.find("sum := d.crc.Sum32()") < db.find("d.dec.Decode(&decoded)")),
+        "decMismatchIsIntegrity": int(re.search(r"if sum != decoded \{\s*return errors\.E\(errors\.Integrity,", db) is not None),
+    }
+    gen = ["def crcFactsG : List (String × Nat) := [%s]" % ", ".join('("%s", %d)' % kv for kv in sorted(facts.items()))]
+    want = ('[("decMismatchIsIntegrity", 1), ("decResetBeforeHeader", 1), ("decSumBeforeStored", 1), ("decTee", 1), ("encResetFirst", 1), '
+            '("encSumLast", 1), ("encTee", 1), ("newIEEE", 2), ("otherPoly", 0)]')
+    ties = [("crc_use_tie", "theorem crc_use_tie : crcFactsG = %s := by decide" % want,
+             "sliceio/codec.go: the checksum of BS.Crc (IEEE) is computed over exactly the batch bytes on both ends and a mismatch is an Integrity error")]
+    vlib.t2_check(chk, wc, "C07", ["BS.Model.Crc"], "\n".join(gen), ties)
